@@ -533,7 +533,7 @@ def why(sig, n, kws):
 
 # ------------------------------------------------------------------ second half of the property (no theorem): shared helpers
 ARRAY_NAMES = {"x", "a", "x1", "x2", "y", "b", "lhs", "rhs", "v", "m", "ar", "array", "arr", "inputs", "operand", "p",
-               "image", "sample", "condition", "logits", "ary", "A", "query", "key", "value", "q", "k"}
+               "image", "sample", "condition", "logits", "ary", "A", "query", "key", "value", "q", "k", "start", "stop"}
 
 
 def _profiles():
@@ -543,7 +543,8 @@ def _profiles():
     att = np.sin(np.arange(80, dtype=np.float32)).reshape(2, 5, 2, 4)          # (batch, length, heads, head_dim)
     return [("f32[3,4]", lambda i: base + 0.37 * i), ("f32[3,3]", lambda i: sq + 0.11 * i),
             ("f32[4]", lambda i: base[0] + 0.37 * i), ("f32[3,4]+", lambda i: np.abs(base) + 0.5 + 0.1 * i),
-            ("f32[2,5,2,4]", lambda i: np.roll(att, i, axis=1) * (1 + 0.5 * i))]
+            ("f32[2,5,2,4]", lambda i: np.roll(att, i, axis=1) * (1 + 0.5 * i)),
+            ("f32[]", lambda i: np.asarray(0.5 + 1.5 * i, dtype=np.float32))]
 
 
 def _alt_value(name, default, first):
@@ -699,10 +700,22 @@ def boundary_values(p, first):
     return []
 
 
+def _is_dflt(v, d):
+    try:
+        return v is d or (type(v) is type(d) and not hasattr(v, "shape") and bool(v == d) and repr(v) == repr(d))
+    except Exception:
+        return False
+
+
 def companion_value(p, first):
     """one non-default value for a parameter that accompanies the varied one"""
     vals = _alt_value(p.name, p.default, first)
-    return vals[0] if vals else None
+    if vals:
+        return vals[0]
+    for v in boundary_values(p, first):
+        if v is not None and not _is_dflt(v, p.default):
+            return v
+    return None
 
 
 def _explorable(e):
@@ -740,8 +753,8 @@ class Form:
         parts = ["<arr>"] * n_arr + [_vtext(v) for v in self.pos] + [f"{k}={_vtext(v)}" for k, v in self.kw.items()]
         return f"{name}({', '.join(parts)})"
 
-    def shape(self):
-        return len(self.pos), tuple(self.kw)
+    def binds_on(self, sig, n_arr):
+        return py_binds(sig, n_arr + len(self.pos), tuple(self.kw))
 
     def build(self, f, arrays):
         """-> (function of the input arrays, input arrays)"""
@@ -766,6 +779,73 @@ class Form:
                     kw[where] = xs[n + j]
             return f(*xs[:n], *pos, **kw)
         return call, list(arrays) + extra
+
+
+class SeqForm:
+    """two calls of the same form with different values inside ONE traced function: (f(<arrays>, form1), f(<arrays>, form2));
+    shows state kept between calls by whatever stands between the caller and the substitute"""
+    __slots__ = ("forms", "param", "spelling", "single")
+
+    def __init__(self, f1, f2, param, spelling):
+        self.forms, self.param, self.spelling, self.single = (f1, f2), param, spelling, (f1, f2)
+
+    def text(self, name, n_arr):
+        return "[" + " ; ".join(f.text(name, n_arr) for f in self.forms) + "]"
+
+    def binds_on(self, sig, n_arr):
+        return all(f.binds_on(sig, n_arr) for f in self.forms)
+
+    def build(self, f, arrays):
+        calls = [fm.build(f, arrays)[0] for fm in self.forms]
+        n = len(arrays)
+        return (lambda *xs: tuple(c(*xs[:n]) for c in calls)), list(arrays)
+
+
+def _has_array(form):
+    return any(hasattr(v, "shape") and hasattr(v, "dtype") for v in list(form.pos) + list(form.kw.values()))
+
+
+def extra_forms(e, req, opts, first, rng, max_pairs=15):
+    """(both tiers)  PAIRS: two optional parameters at one non-default value each, by keyword and positionally -- a fallback
+    that forwards only some of the arguments shows here;  SEQUENCES: [default ; non-default] and [non-default ; default] of
+    the same form inside one traced function."""
+    so = e["orig_sigs"][0]
+    pos_params = [q for q in so.parameters.values() if q.kind in (q.POSITIONAL_ONLY, q.POSITIONAL_OR_KEYWORD)]
+    n = len(req)
+    cv = {p.name: companion_value(p, first) for p in opts}
+    cand = [p for p in opts if cv[p.name] is not None]
+    pairs = [(a, b) for i, a in enumerate(cand) for b in cand[i + 1:]]
+    if len(pairs) > max_pairs:
+        pairs = rng.sample(pairs, max_pairs)
+    for a, b in pairs:
+        if a.kind is not a.POSITIONAL_ONLY and b.kind is not b.POSITIONAL_ONLY:
+            yield Form([], {a.name: cv[a.name], b.name: cv[b.name]}, f"{a.name}+{b.name}", "pair, keyword",
+                       single=(Form([], {a.name: cv[a.name]}, a.name, "keyword"), Form([], {b.name: cv[b.name]}, b.name, "keyword")))
+        if a in pos_params and b in pos_params:
+            ja, jb = sorted((pos_params.index(a), pos_params.index(b)))
+            span = pos_params[n:jb + 1]
+            if all(q.default is not q.empty for q in span):
+                vals = [(cv[q.name] if q in (a, b) else q.default) for q in span]
+                yield Form(vals, {}, f"{a.name}+{b.name}", "pair, positional",
+                           single=(Form([(cv[q.name] if q is pos_params[ja] else q.default) for q in pos_params[n:ja + 1]], {}, pos_params[ja].name, "positional"),
+                                   Form([(cv[q.name] if q is pos_params[jb] else q.default) for q in span], {}, pos_params[jb].name, "positional")))
+    for p in cand:
+        if p.default is p.empty:
+            continue
+        v = cv[p.name]
+        variants = []
+        if p.kind is not p.POSITIONAL_ONLY:
+            variants.append(("keyword", lambda val, _p=p: Form([], {_p.name: val}, _p.name, "keyword")))
+        if p in pos_params:
+            before = pos_params[n:pos_params.index(p)]
+            if all(q.default is not q.empty for q in before):
+                variants.append(("positional", lambda val, _b=before, _p=p: Form([q.default for q in _b] + [val], {}, _p.name, "positional")))
+        for sp, mk in variants:
+            fd, fv = mk(p.default), mk(v)
+            if _has_array(fd) or _has_array(fv):
+                continue
+            yield SeqForm(fd, fv, p.name, f"sequence default;value, {sp}")
+            yield SeqForm(fv, fd, p.name, f"sequence value;default, {sp}")
 
 
 def forms_for(e, req, opts, first, pairs):
@@ -889,7 +969,8 @@ def behavioural(ctx, usable, tier, rng, export_budget_s, only=None):
                 cases.append({"e": e, "f": f, "name": name, "profile": pname, "arrays": arrays, "form": plain, "plain": True,
                               "want": ("ok", base), "n_arr": len(req)})
                 seen = set()
-                for form in forms_for(e, req, opts, arrays[0], pairs):
+                import itertools
+                for form in itertools.chain(forms_for(e, req, opts, arrays[0], pairs), extra_forms(e, req, opts, arrays[0], rng)):
                     txt = form.text(name, len(req))
                     if txt in seen:
                         continue
@@ -897,8 +978,7 @@ def behavioural(ctx, usable, tier, rng, export_budget_s, only=None):
                     if only is not None and f"arg {txt}" != only[1]:
                         continue
                     out["forms_x_values"] += 1
-                    npos, kws = form.shape()
-                    if not py_binds(e["sub_sig"], len(req) + npos, kws):
+                    if not form.binds_on(e["sub_sig"], len(req)):
                         out["substitute_does_not_bind_form(sig finding)"] += 1
                         continue
                     call, inputs = form.build(f, arrays)
@@ -965,7 +1045,8 @@ def behavioural(ctx, usable, tier, rng, export_budget_s, only=None):
         out["t_eval"] = round(time.time() - t0, 1)
         # ---- 3. E: export + onnxruntime (sample chosen by seed in quick, everything in thorough; bounded by a budget)
         failed = {x["key"] for x in out["failures"]}
-        todo = [c for c in cases if not c["plain"] and c["J"][0] in ("same", "cannot-evaluate") and f"arg {c['text']}" not in failed]
+        todo = [c for c in cases if not c["plain"] and c["J"][0] in ("same", "cannot-evaluate") and f"arg {c['text']}" not in failed
+                and (tier != "quick" or not c["form"].single)]          # quick: pairs and sequences through J only
         rng.shuffle(todo)          # the order only matters when the budget cuts the list short
         todo.sort(key=lambda c: bool(c["form"].single))          # single-parameter forms first (stable sort)
         plain_ok = {}
@@ -1124,12 +1205,190 @@ Definition cs_ : list (list param * list param * call * list string) := [
                 model = ({0: "direct", 1: "foreign", 2: "original"}[code[0]],)
             if model != got:
                 bad.append((w, o, n, kws, dflt, "model", model, "real", got))
+    ok_s, det_s = adapter_stateless(_patching, usable)
+    ctx.oblige("tie:adapter-keeps-no-state-between-calls(AST of adapt_call_signature + closure cells of installed adapters)", ok_s, "tie", det_s)
+    seq_bad, seq_info = adapter_sequences(ctx, _patching, [(p[0], p[1]) for p in differing], 150 if ctx.tier == "quick" else 1500)
+    if seq_bad is None:
+        ctx.oblige("tie:adapted()-per-call-equals-model-on-call-sequences", False, "tie", seq_info)
+    else:
+        ctx.oblige(f"tie:adapted()-per-call-equals-model-on-call-sequences({seq_info})", not seq_bad, "tie",
+                   "" if not seq_bad else json.dumps(seq_bad[:2]))
+        for b in seq_bad[:3]:
+            ctx.violate(f"adapter-sequence {b['form']} after {b['history']}",
+                        f"call-signature adapter: call no. {b['call_no']} of form {b['form']} (default-valued arguments {b['default_valued']}) after "
+                        f"earlier calls of the same form with default-valued arguments {b['history']} reaches `{b['real']}` where the per-call "
+                        f"model says `{b['model']}`; non-default arguments lost: {b['non_default_arguments_lost']}; original {b['original']}, "
+                        f"substitute {b['substitute']}", dict(b, kind="adapter-sequence"))
     import collections
     dist = collections.Counter(c[5][0] for c in cases)
     ctx.oblige(f"tie:adapter-model-equals-plan_call({len(cases)} random call forms: {dict(dist)})", not bad, "tie",
                "" if not bad else repr(bad[:3]))
     return {"present": True, "signature_pairs": len(pairs), "pairs_not_plainly_forwarding": len(differing), "cases": len(cases),
             "plans": dict(dist)}
+
+
+def adapter_stateless(_patching, usable):
+    """(ok, detail): `adapted()` must decide every call from that call alone.  Fail closed:
+    AST -- the closure of adapt_call_signature may hand `adapted` only orig / new / the two signatures; `adapted` has no
+    global/nonlocal, stores into nothing but its own locals, and none of the planning functions is decorated (no caches);
+    runtime -- the closure cells of every installed adapter hold only callables and Signature objects."""
+    import textwrap
+    problems = []
+    try:
+        tree = ast.parse(textwrap.dedent(inspect.getsource(_patching)))
+    except Exception as exc:
+        return False, f"cannot read the source of _patching: {exc}"
+    funcs = {n.name: n for n in ast.walk(tree) if isinstance(n, ast.FunctionDef)}
+    outer = funcs.get("adapt_call_signature")
+    if outer is None:
+        return False, "adapt_call_signature not found"
+    inner = [n for n in ast.walk(outer) if isinstance(n, ast.FunctionDef) and n is not outer]
+    if len(inner) != 1:
+        problems.append(f"{len(inner)} nested functions in adapt_call_signature (expected exactly `adapted`)")
+    planning = ("plan_call", "_bind", "_binds", "_is_default", "adapt_call_signature")
+    for nm in planning:
+        if nm in funcs and funcs[nm].decorator_list:
+            problems.append(f"{nm} is decorated")
+    allowed_shared = {"orig", "new", "sig_orig", "sig_new"}
+    outer_locals = {a.arg for a in outer.args.args}
+    for n in ast.walk(outer):
+        if isinstance(n, ast.Name) and isinstance(n.ctx, ast.Store):
+            outer_locals.add(n.id)
+    for fn in inner:
+        if fn.decorator_list:
+            problems.append(f"{fn.name} is decorated")
+        own = {a.arg for a in fn.args.args + fn.args.kwonlyargs} | {fn.args.vararg.arg if fn.args.vararg else "", fn.args.kwarg.arg if fn.args.kwarg else ""}
+        for n in ast.walk(fn):
+            if isinstance(n, ast.Name) and isinstance(n.ctx, ast.Store):
+                own.add(n.id)
+        for n in ast.walk(fn):
+            if isinstance(n, (ast.Global, ast.Nonlocal)):
+                problems.append(f"{fn.name} declares {type(n).__name__.lower()} {n.names}")
+            if isinstance(n, ast.Name) and isinstance(n.ctx, ast.Load) and n.id in outer_locals and n.id not in own \
+                    and n.id not in allowed_shared and n.id != fn.name:
+                problems.append(f"{fn.name} reads `{n.id}` from the enclosing scope (state shared between calls)")
+            if isinstance(n, (ast.Subscript, ast.Attribute)) and isinstance(n.ctx, (ast.Store, ast.Del)):
+                base = n.value
+                while isinstance(base, (ast.Subscript, ast.Attribute)):
+                    base = base.value
+                if not (isinstance(base, ast.Name) and base.id in own):
+                    problems.append(f"{fn.name} stores into a non-local object at line {n.lineno}")
+    # every function the planner is made of must not write module state either
+    for nm in ("plan_call", "_bind", "_binds", "_is_default"):
+        fn = funcs.get(nm)
+        if fn is None:
+            continue
+        for n in ast.walk(fn):
+            if isinstance(n, (ast.Global, ast.Nonlocal)):
+                problems.append(f"{nm} declares {type(n).__name__.lower()} {n.names}")
+    n_cells = 0
+    for e in usable:
+        sub = e["sub"]
+        if getattr(sub, "__j2o_substitute__", None) is None:
+            continue
+        for cell in (getattr(sub, "__closure__", None) or ()):
+            n_cells += 1
+            try:
+                v = cell.cell_contents
+            except ValueError:
+                continue
+            if not (callable(v) or isinstance(v, inspect.Signature)):
+                problems.append(f"adapter of {e['key'][4:]} keeps a {type(v).__name__} in its closure")
+                break
+    return (not problems), "; ".join(sorted(set(problems))[:6]) or f"{n_cells} closure cells of installed adapters inspected"
+
+
+def adapter_sequences(ctx, _patching, sig_pairs, n_seq):
+    """the REAL adapted() on sequences of calls of one form with different values (default ; non-default ; default ...):
+    every call must do what PySig.adapter says for THAT call, and deliver every non-default value it was given"""
+    rng = ctx.rng
+    D = type("Default", (), {"__repr__": lambda self: "<default>"})()
+
+    def recorder(ps, tag):
+        parts, last_posonly = [], max([i for i, p in enumerate(ps) if p[1] == "PosOnly"], default=-1)
+        has_varpos, seen_kwonly = any(p[1] == "VarPos" for p in ps), False
+        for i, (name, kind, dflt) in enumerate(ps):
+            if kind == "KwOnly" and not has_varpos and not seen_kwonly:
+                parts.append("*")
+            seen_kwonly = seen_kwonly or kind == "KwOnly"
+            parts.append({"VarPos": "*" + name, "VarKw": "**" + name}.get(kind, name + ("=_D" if dflt else "")))
+            if i == last_posonly:
+                parts.append("/")
+        ns = {"_D": D}
+        exec(f"def f({', '.join(parts)}): return ({tag!r}, dict(locals()))", ns)
+        return ns["f"]
+
+    seqs = []
+    usable_pairs = [(w, o) for (w, o) in sig_pairs if valid_for_def(w) and valid_for_def(o)]
+    for _ in range(n_seq):
+        if not usable_pairs:
+            break
+        w, o = rng.choice(usable_pairs)
+        so = inspect.signature(recorder(o, "orig"))
+        for _try in range(10):
+            n, kws = random_call(rng, o, [p[0] for p in w])
+            if py_binds(so, n, kws):
+                break
+        else:
+            continue
+        o_pos = [p for p in o if p[1] in ("PosOnly", "PosOrKw")]
+        can_default = [(i if i < len(o_pos) and o_pos[i][2] else None) for i in range(n)]
+        kw_default = [k for k in kws if any(p[0] == k and p[2] and p[1] in ("PosOrKw", "KwOnly") for p in o)]
+        calls = []
+        for phase in rng.choice([("d", "v"), ("v", "d"), ("d", "v", "d"), ("v", "d", "v"), ("d", "d", "v")]):
+            args, kwargs, dflt = [], {}, []
+            for i in range(n):
+                if phase == "d" and can_default[i] is not None:
+                    args.append(D)
+                    dflt.append(o_pos[i][0])
+                else:
+                    args.append(object())
+            for k in kws:
+                if phase == "d" and k in kw_default:
+                    kwargs[k] = D
+                    dflt.append(k)
+                else:
+                    kwargs[k] = object()
+            calls.append((args, kwargs, dflt))
+        seqs.append((w, o, n, kws, calls))
+    flat = [(w, o, n, kws, dflt) for (w, o, n, kws, calls) in seqs for (_, _, dflt) in calls]
+    models = []
+    for off in range(0, len(flat), 300):
+        chunk = flat[off:off + 300]
+        txt = HEADER + "Definition cs_ : list (list param * list param * call * list string) := [\n" + ";\n".join(
+            f"({siglit(w)}, {siglit(o)}, {calllit(n, kws)}, [" + "; ".join(f'"{a}"' for a in dflt) + "])"
+            for (w, o, n, kws, dflt) in chunk) + "].\n"
+        txt += ("Eval vm_compute in map (fun x => let '(w, o, c, d) := x in match adapter w o (fun a => mem a d) c with "
+                "Direct => 0 | Foreign => 1 | Original => 2 | Routed _ _ => 3 end) cs_.\n")
+        ok, out = common.coq_eval_file(ctx, f"c19_adseq_{off}", txt)
+        m = re.search(r"=\s*(\[[^\]]*\]|nil)\s*:\s*list nat", out.replace("\n", " ")) if ok else None
+        if not m:
+            return None, out[-800:]
+        body = m.group(1)
+        models += [] if body in ("nil", "[]") else [int(x.replace("%nat", "")) for x in body.strip("[]").split(";")]
+    if len(models) != len(flat):
+        return None, "model evaluation count mismatch"
+    bad, it = [], iter(models)
+    for (w, o, n, kws, calls) in seqs:
+        adapted = _patching.adapt_call_signature(recorder(o, "orig"), recorder(w, "new"))
+        for step, (args, kwargs, dflt) in enumerate(calls):
+            model = next(it)
+            try:
+                tag, got = adapted(*args, **kwargs)
+            except TypeError:
+                tag, got = "TypeError", {}
+            expect = {0: "new", 1: "TypeError", 2: "orig", 3: "new"}[model]
+            delivered = []
+            for v in got.values():
+                delivered += list(v) if isinstance(v, tuple) else (list(v.values()) if isinstance(v, dict) else [v])
+            given = [v for v in list(args) + list(kwargs.values()) if v is not D]
+            lost = [v for v in given if not any(v is d for d in delivered)]
+            if tag != expect or (tag in ("new", "orig") and lost):
+                bad.append({"substitute": siglit(w), "original": siglit(o), "form": calllit(n, kws), "call_no": step + 1,
+                            "default_valued": dflt, "history": [c[2] for c in calls[:step]], "model": expect, "real": tag,
+                            "non_default_arguments_lost": len(lost)})
+                break
+    return bad, f"{len(seqs)} sequences, {len(flat)} calls"
 
 
 def run(ctx):
